@@ -825,7 +825,7 @@ Section Validator.
     | None => [sec EVarNoType (vd_dollar def)]
     | Some vt =>
         match va_expected a with
-        | None => [sec EVarNoLocation dollar]
+        | None => if va_scalar a then [] else [sec EVarNoLocation dollar]
         | Some lt =>
             let check (lt' : sty) := if types_compatible vt lt' then [] else [err EVarIncompatible dollar] in
             match lt with
